@@ -184,6 +184,7 @@ var properties = map[string]*propSpec{
 			{Test: "TestC11_Exhaustive", Quick: 1, Thorough: 1},
 			{Test: "TestC11_Random", Quick: 30000, Thorough: 500000, Rapid: true},
 			{Test: "TestC11_Chained", Quick: 20000, Thorough: 300000, Rapid: true, Shards: 8},
+			{Test: "TestC11_SharedSlice", Quick: 150, Thorough: 3000, Rapid: true, Race: true, Flaky: true, Shards: 6},
 		},
 		Assumptions: assume("the slice oracle is spec.SliceIndices, pinned to CPython's slice semantics by a digest over 33775 combinations (spec/slice_test.go)", "integers outside Go's int are ErrorInvalidArgument at parse time and out of the property's domain"),
 	},
